@@ -13,13 +13,14 @@ res = {}
 try:
     for p in props:
         t = time.time()
-        q = subprocess.run(['./check', p, '--tier', os.environ.get('SEED_TIER', 'quick')], cwd='/verif', capture_output=True, text=True)
+        os.makedirs('/tmp/seed-evidence', exist_ok=True)
+        q = subprocess.run(['./check', p, '--tier', os.environ.get('SEED_TIER', 'quick')], cwd='/verif', capture_output=True, text=True,
+                           env=dict(os.environ, VERIF_EVIDENCE_DIR='/tmp/seed-evidence'))
         lines = [l for l in q.stdout.split('\n') if l.startswith(('VIOLATION', 'KNOWN-FINDING', 'INCONCLUSIVE'))]
         res[p] = {'exit': q.returncode, 'lines': lines[:6], 's': round(time.time() - t)}
         print(sid, p, 'exit', q.returncode, lines[:3], flush=True)
 finally:
     subprocess.run('git -C /repo checkout -- .', shell=True)
-    subprocess.run('git -C /verif checkout -- evidence', shell=True, capture_output=True)
 mp = os.path.join(d, 'meta.json')
 meta = json.load(open(mp))
 det = meta.get('runs') or {}
